@@ -10,6 +10,7 @@ from . import bind
 REGISTRY = {
     "C01": ("bpmc.checks.pycodec", "C01"),
     "C02": ("bpmc.checks.pycodec", "C02"),
+    "C03": ("bpmc.checks.ccodec", "C03"),
 }
 
 
